@@ -46,6 +46,9 @@ EVENT: dict[str, int] = {}
 _clock = [0]
 
 
+EXISTING: set = set()  # names of constants that denote objects handed in by a callee (opaque results): they existed when created
+
+
 def tick(name: str) -> int:
     _clock[0] += 1
     EVENT[name] = _clock[0]
